@@ -183,7 +183,7 @@ class ParserBuild:
     pass
 
 
-def build_parser(gdir, gen_result, impl_source=None):
+def build_parser(gdir, gen_result, impl_source=None, partial=False):
     """gdir contains generated.rs; gen_result is the harness result (with dump).
     impl_source: compile the driver against this file instead (the parser checked into /repo for lelwel's
     own grammar), while the model side is still the translation of the freshly emitted generated.rs.
@@ -195,10 +195,16 @@ def build_parser(gdir, gen_result, impl_source=None):
     gen_path = os.path.join(gdir, 'generated.rs')
     text = open(gen_path).read()
     pb.tok_ids = token_ids(gen_result['dump'])
-    pb.tr = rust2cmd.translate(text, pb.tok_ids)
-    pb.sexp = rust2cmd.program_sexp(pb.tr)
-    pb.prog_path = os.path.join(gdir, 'program.sexp')
-    open(pb.prog_path, 'w').write(pb.sexp)
+    if partial:
+        # the rule bodies are outside the command language: implementation-side driver only (no model side)
+        pb.tr = rust2cmd.translate_partial(text, pb.tok_ids)
+        pb.sexp = None
+        pb.prog_path = None
+    else:
+        pb.tr = rust2cmd.translate(text, pb.tok_ids)
+        pb.sexp = rust2cmd.program_sexp(pb.tr)
+        pb.prog_path = os.path.join(gdir, 'program.sexp')
+        open(pb.prog_path, 'w').write(pb.sexp)
     if impl_source is not None:
         # the driver includes the given file; its callback table is still derived from the freshly emitted text
         # (the checked-in file is rustfmt-formatted, the trait methods are wrapped over several lines there)
